@@ -234,7 +234,7 @@ class Relay(W.NetPolicy):
                                                             struct.unpack(">H", nd[:2])[0])
                     nd = struct.pack(">H", nid) + nd[2:]
                 if flip:
-                    nd = flipcase_qname(nd, self.ndom)
+                    nd = flipcase_qname(nd, self.ndom, int(flip))
                 src2 = (osrc[0], osrc[1] + 1000) if otherport else osrc
                 res.append((self.latency + delay, nd, src2, odst,
                             {"redeliver_of": oserial, "newid": bool(newid), "flip": bool(flip),
@@ -261,13 +261,16 @@ class Relay(W.NetPolicy):
         return res
 
 
-def flipcase_qname(data, ndom):
-    """swap the case of every ASCII letter in the data labels of the question name"""
+def flipcase_qname(data, ndom, mode=1):
+    """swap the case of ASCII letters in the data labels of the question name: mode 1 every letter, mode k > 1 every
+    k-th byte position only (several different spellings of one name)"""
     m = D.parse(data)
     if m.errors or not m.qd:
         return data
     labels, qt, qc = m.qd[0]
-    nl = _map_labels(labels, lambda b: bytes((c ^ 0x20) if 65 <= (c & ~0x20) <= 90 and c < 128 else c for c in b), ndom)
+    nl = _map_labels(labels, lambda b: bytes((c ^ 0x20) if (65 <= (c & ~0x20) <= 90 and c < 128 and
+                                                             (mode <= 1 or i % mode == 1)) else c
+                                                   for i, c in enumerate(b)), ndom)
     has_edns = any(r.type == D.T_OPT for r in m.ar)
     return D.build_query(m.id, nl, qt, edns=has_edns)
 
